@@ -167,3 +167,31 @@ Example C01_probe_instance :
   (st ← run_to (Config false true true) c01_decl [[QP [] false PEntAny true]] rs0 (c01_ops1 ++ c01_ops2 ++ c01_ops3);
    snd <$> step (Config false true true) c01_decl [] st (OProbe LWorld KEnt TAny (RIssued 0))) = Some [0; 0; 0; 0]%N.
 Proof. vm_compute. split; reflexivity. Qed.
+
+(* ---------------------------------------------------------------- model against the specification oracle *)
+From Gecs Require Import Spec OracleFacts.
+
+(** The specification oracle (spec/Spec.v) decides C01 on implementation traces by running its path checks
+    on every probe observation against what it believes about the handle.  Whenever that belief is the
+    truth about the model's storage ([belief_true]: the handle is believed live with row r exactly when it
+    is stored with row r), the oracle accepts the observation the model prints for a world-level probe
+    with a dynamically typed issued handle, in every reachable state, and leaves its own state unchanged:
+    on this operation the model satisfies the oracle's reading of the property, and the oracle raises no
+    alarm on code that behaves like the model.  (That the belief stays true along a history is not proved;
+    it is exercised by every run of the correspondence check.) *)
+Theorem C01_the_oracle_accepts_the_model_on_probes : forall cfg d qs st sst w sw i e a0 a s x, RInv d st ->
+  cur_world st = Some w -> issued st !! i = Some e -> snd e <> 0%N -> key32 e ->
+  find_arch (wd_archs d) (key_arch_id (fst e)) = Some a -> w !! a = Some s -> eslot e < cap s ->
+  cur_sworld sst = Some sw -> s_issued sst !! i = Some (e, a0) -> sw !! a = Some x -> belief_true s x e ->
+  exists obs, step cfg d qs st (OProbe LWorld KEnt TAny (RIssued i)) = Some (st, obs) /\
+              spec_step cfg d qs sst (OProbe LWorld KEnt TAny (RIssued i)) obs = inr sst.
+Proof. exact probe_world_oracle_accepts. Qed.
+
+(** World bookkeeping (new / switch / drop / arm a fault): accepted in every state, unconditionally. *)
+Theorem C01_the_oracle_accepts_the_model_on_bookkeeping : forall cfg d qs st sst o,
+  match o with ONew _ | OSwitch _ | ODrop _ | OFault _ _ => True | _ => False end ->
+  match step cfg d qs st o with
+  | Some (_, obs) => exists sst', spec_step cfg d qs sst o obs = inr sst'
+  | None => True
+  end.
+Proof. exact bookkeeping_steps_accepted. Qed.
